@@ -12,7 +12,7 @@ from pyvc.dsl import *  # noqa: F401,F403
 class_aliases = {
     "Node": "hugr.hugr.node_port.Node", "Hugr": "hugr.hugr.base.Hugr", "Op": "hugr.ops.Op", "Input": "hugr.ops.Input", "Output": "hugr.ops.Output",
     "DfParentOp": "hugr.ops.DfParentOp", "Type": "hugr.tys.Type", "OutPort": "hugr.hugr.node_port.OutPort", "DfBase": "hugr.build.dfg.DfBase",
-    "DataflowBlock": "hugr.ops.DataflowBlock", "ExitBlock": "hugr.ops.ExitBlock",
+    "DataflowBlock": "hugr.ops.DataflowBlock", "ExitBlock": "hugr.ops.ExitBlock", "CFG_": "hugr.ops.CFG",
 }
 extra_fields = {
     "hugr.hugr.base.Hugr._tn_op": "Seq[Op]",
@@ -416,7 +416,11 @@ class cfg_init_impl:
                 "P_entry_block_has_input_and_output": io_pair(self._entry_block, hugr, n0 + 1, entry, self._entry_block.parent_node),
                 # ... and the exit block is created next, under the CFG node
                 "P_exit_block_second": cls_is(nth(hugr._tn_op, n0 + 3), ExitBlock) and notNone(nth(hugr._tn_parent, n0 + 3)) and the(nth(hugr._tn_parent, n0 + 3)).idx == root.idx
-                and eq(self.exit, nth(hugr._tn_node, n0 + 3))}
+                and eq(self.exit, nth(hugr._tn_node, n0 + 3)),
+                "P_earlier_calls_kept": forall(int, lambda j: implies(0 <= j and j < n0, same_obj(nth(hugr._tn_op, j), nth(old(hugr._tn_op), j))
+                                                                      and eq(nth(hugr._tn_node, j), nth(old(hugr._tn_node), j))
+                                                                      and eq(nth(hugr._tn_parent, j), nth(old(hugr._tn_parent), j))
+                                                                      and eq(nth(hugr._tn_outs, j), nth(old(hugr._tn_outs), j))))}
 
 
 # ---- Conditional._init_impl: one Case per variant, in order, each with the variant's row followed by the other inputs ----
@@ -563,3 +567,63 @@ class conditional_init_impl:
         cop = ghost("conditional_op_of", "hugr.ops.Conditional", hugr, root.idx)
         return {"P_three_nodes_per_case": len(hugr._tn_op) == n0 + 3 * n_cases and len(self._case_builders) == n_cases,
                 "P_case_j_is_the_j_th_child_with_its_row": forall(int, lambda j: implies(0 <= j and j < n_cases, case_at(self, hugr, n0, j, cop, root)))}
+
+
+# ---- Cfg.new_nested / DfBase.add_cfg ------------------------------------------------------------------------
+@contract("hugr.build.cfg.Cfg.new_nested", props=["C01"])
+class cfg_new_nested:
+    types = {"input_types": "Seq[Type]", "hugr": "Hugr", "parent": "Opt[Node]"}
+    returns = "hugr.build.cfg.Cfg"
+    fresh_result = True
+
+    def requires(cls, input_types, hugr, parent):
+        return aligned(hugr)
+
+    def modifies(cls, input_types, hugr, parent):
+        return [hugr._tn_op, hugr._tn_parent, hugr._tn_outs, hugr._tn_node, hugr._nodes, hugr._free_nodes]
+
+    def raises(cls, input_types, hugr, parent):
+        return {}
+
+    def ensures(cls, input_types, hugr, parent, result):
+        n0 = len(old(hugr._tn_op))
+        op = nth(hugr._tn_op, n0)
+        entry = nth(hugr._tn_op, n0 + 1)
+        return {"P_five_nodes": len(hugr._tn_op) == n0 + 5 and aligned(hugr) and same_obj(result.hugr, hugr),
+                "P_a_CFG_node_with_the_input_row_under_the_given_parent_or_the_root": cls_is(op, CFG_) and eq(as_cls(op, CFG_).inputs, input_types)
+                and notNone(nth(hugr._tn_parent, n0)) and the(nth(hugr._tn_parent, n0)).idx == ite(isNone(parent), hugr.root, the(parent)).idx
+                and result.parent_node.idx == nth(hugr._tn_node, n0).idx,
+                "P_entry_block_first_then_exit_block": cls_is(entry, DataflowBlock) and eq(as_cls(entry, DataflowBlock).inputs, input_types)
+                and notNone(nth(hugr._tn_parent, n0 + 1)) and the(nth(hugr._tn_parent, n0 + 1)).idx == result.parent_node.idx
+                and cls_is(nth(hugr._tn_op, n0 + 4), ExitBlock) and notNone(nth(hugr._tn_parent, n0 + 4)) and the(nth(hugr._tn_parent, n0 + 4)).idx == result.parent_node.idx
+                and eq(result.exit, nth(hugr._tn_node, n0 + 4))}
+
+
+@contract("hugr.build.dfg.DfBase.add_cfg", props=["C01"])
+class add_cfg:
+    types = {"args": "Seq[Union[Node, OutPort]]"}
+    exact_self = False
+    returns = "hugr.build.cfg.Cfg"
+    may_raise = ["ValueError"]
+
+    def requires(self, args):
+        return aligned(self.hugr) and len(self._tw_node) == len(self._tw_wires)
+
+    def modifies(self, args):
+        h = self.hugr
+        return [h._tn_op, h._tn_parent, h._tn_outs, h._tn_node, h._nodes, h._free_nodes, self._tw_node, self._tw_wires, h._links.fwd, h._links.bck,
+                "hugr.ops.Output._types", "hugr.ops.DataflowOp._g_epoch"]
+
+    def raises(self, args):
+        return {}
+
+    def ensures(self, args, result):
+        h = self.hugr
+        n0 = len(old(self.hugr._tn_op))
+        w = len(self._tw_node)
+        op = nth(h._tn_op, n0)
+        return {"P_a_CFG_whose_inputs_are_the_types_of_the_wires": len(h._tn_op) == n0 + 5 and cls_is(op, CFG_) and eq(as_cls(op, CFG_).inputs, wire_row(self, args)),
+                "P_under_this_container": notNone(nth(h._tn_parent, n0)) and the(nth(h._tn_parent, n0)).idx == self.parent_node.idx and same_obj(result.hugr, h)
+                and result.parent_node.idx == nth(h._tn_node, n0).idx,
+                "P_the_wires_go_to_the_CFG_node_in_order": w == len(old(self._tw_node)) + 1 and len(self._tw_wires) == w
+                and nth(self._tw_node, w - 1).idx == result.parent_node.idx and eq(nth(self._tw_wires, w - 1), args)}
